@@ -6,7 +6,7 @@ cd "$(dirname "$0")"
 command -v java >/dev/null
 test -f /opt/veriftools/tla/tla2tools.jar
 mkdir -p work evidence replays
-for m in Trace_Step Trace_Reward Trace_Obs Trace_Rays Trace_Reset VisTable MC_Step MC_Obs MC_Rays MC_Win MC_Rep MC_Geom Trace_Rep Trace_Geom GVCache GVEnv GVMultiEnv GVHeap Trace_Space Trace_History Trace_Design Trace_Basics Trace_Returns GVRegistry GVRecording MC_SymLink; do
+for m in GVConfigTable Trace_Step Trace_Reward Trace_Obs Trace_Rays Trace_Reset VisTable MC_Step MC_Obs MC_Rays MC_Win MC_Rep MC_Geom Trace_Rep Trace_Geom GVCache GVEnv GVMultiEnv GVHeap Trace_Space Trace_History Trace_Design Trace_Basics Trace_Returns GVRegistry GVRecording MC_SymLink; do
   (cd spec && java -cp /opt/veriftools/tla/tla2tools.jar:/opt/veriftools/tla/CommunityModules-deps.jar tla2sany.SANY $m.tla >/dev/null 2>&1) || { echo "SANY failed on $m"; exit 1; }
 done
 PYTHONPATH=/verif /venv/bin/python -W ignore -c "
